@@ -1,7 +1,7 @@
 (* C06  Quoting helpers invert the lexer and cannot be broken out of.
    The theorems are about Scanner.Scan on the EXACT reader (3-slot ring, one-deep pushback re-reads of the opening
    quote, CR folding), started between tokens ([wf]: nothing pushed back). *)
-From InfluxQL Require Import Base.Prelude Lex.Token Lex.Reader Lex.Scanner Lex.Quote Proofs.ReaderProofs Proofs.QuoteProofs.
+From InfluxQL Require Import Base.Prelude Lex.Token Lex.Reader Lex.Scanner Lex.Quote Proofs.ReaderProofs Proofs.QuoteProofs Proofs.BareIdentProofs.
 
 (* for every expressible string (no NUL, no CR), QuoteString(s) followed by ANY text scans as one STRING token with
    value s, leaving exactly that text *)
@@ -26,6 +26,15 @@ Theorem C06_no_breakout : forall ulower s rest r,
     ((tok = STRING /\ lit = s /\ wf r' /\ r_src r' = rest) \/ tok = BADSTRING).
 Proof. exact scan_quote_string_any. Qed.
 Print Assumptions C06_no_breakout.
+
+(* a non-empty name for which IdentNeedsQuotes is false, written bare, scans as exactly that one identifier, whatever
+   follows it - the end of the text, or any rune that cannot continue an identifier.  (The converse - a name that needs
+   quotes never scans bare as itself - is checked exhaustively over short names by the harness, not proved.) *)
+Theorem C06_bare : forall ulower s rest r,
+  wf r -> s <> [] -> ident_needs_quotes ulower s = false -> ends_ident rest -> r_src r = s ++ rest ->
+  exists p r', scan ulower r = ((IDENT, p, s), r') /\ stopped rest r'.
+Proof. exact scan_bare_ident_name. Qed.
+Print Assumptions C06_bare.
 
 (* non-vacuity: an injection attempt, evaluated by the kernel *)
 Example C06_example :
